@@ -380,6 +380,12 @@ def run(ctx):
         ctx.ob("C01.R4c", L.short(fn), bool(tc), fn.loc,
                "CONCURRENT=true try_ operation claims its ticket without an atomic read-modify-write")
     ctx.floor("C01.R4c", n, 8, "CONCURRENT=true public try_ entries")
+
+    # ---------------------------------------------------------------- R12 the entry points without flags are the concurrent ones (K23, after seed C15-5)
+    QNAMES = ("push", "try_push", "push_n", "try_push_n", "pop", "try_pop", "pop_n", "try_pop_n")
+    n12 = L.flag_forwarding(ctx, "C01.R12", fb, QUEUE_REC.pattern, QNAMES, ("CONCURRENT",),
+                            "with CONCURRENT=false the ticket is advanced by a separate load and store and two callers get the same slot")
+    ctx.floor("C01.R12", n12, 12, "forwarding overloads of push / pop and their try_ / _n variants")
     n = 0
     for fn in fb.find(pred=lambda f: is_queue_fn(f) and f.name in ("push", "pop", "push_n", "pop_n")
                       and L.tparam(f, "CONCURRENT") == "true" and f.has_cfg()
